@@ -52,14 +52,22 @@ func (s *synchronizer) sync(_ context.Context, res Response) (Response, bool, er
 
 	s.cycle.counter++
 
-	if !res.Ack {
-		s.cycle.res.Ack = false
+	// Merge the way the storage layer merges the iterators of one node: the command is
+	// acknowledged if it succeeded for any of the channels, and the first error is kept.
+	if res.Ack {
+		s.cycle.res.Ack = true
+	}
+	if s.cycle.res.Error == nil {
+		s.cycle.res.Error = res.Error
 	}
 
 	fulfilled := s.cycle.counter == s.nodeCount
 	if fulfilled {
 		s.cycle.counter = 0
+		// Acknowledge with the response merged over the whole cycle, not with the one
+		// that happened to arrive last.
+		return s.cycle.res, true, nil
 	}
 
-	return res, fulfilled, nil
+	return res, false, nil
 }
